@@ -107,6 +107,7 @@ type out struct {
 	QProbes   []string            `json:"qprobes"`   // the typed probes of the position shapes
 	PosParse  *posParse           `json:"pos_parse"` // typematch.Parse alone on every composition of wrappers
 	FQNSweep  *fqnOut             `json:"fqn_sweep"` // FindType alone on fully-qualified names with dots everywhere
+	ASTFields map[string][][2]string `json:"ast_fields"` // go/ast by reflection: the type-valued fields of the nodes parseExpr handles
 	Error     string              `json:"error,omitempty"`
 }
 
@@ -866,6 +867,7 @@ func main() {
 		mk(g(false, []string{api2, apid}, tp("", "api", "T"), iq("api", "Handler")), g(false, []string{apid, api2}, tp("", "api", "T"), iq("api", "Handler"), ifq(api2, "Handler"))),
 		mk(g(false, []string{yv3}, ifq(yv3, "Marshaler")), g(false, []string{yv3}, tp("", "yaml", "Node"))),
 		mk(g(false, []string{yv3}, iq("yaml", "Marshaler"))),
+		mk(g(false, []string{yv3}, ifq("yaml.v3", "Marshaler"))), // not `pkg.T` (two identifiers), and no package has the path yaml.v3
 		mk(g(false, []string{api2}, ifq(api2, "Handler")), g(false, []string{api2}, tp("", "api", "T"))),
 		mk(g(false, []string{api2}, fr("api", "Handler", "HandleV2"))),
 		mk(g(false, nil, ifq("gopkg.in/yaml", "v3"))),
@@ -893,6 +895,7 @@ func main() {
 		scs = append(scs, posLoadScenario(sh, k))
 	}
 	o.PosParse = posParseSweep()
+	o.ASTFields = astTypeFields()
 	rpos := rand.New(rand.NewSource(*seed*7919 + 17))
 	for k, pf := range posFailShapes(rpos, *ntriples, func(sh string) bool { return o.PosParse.accepted[sh] }) {
 		scs = append(scs, posFailScenario(pf, k))
